@@ -297,7 +297,9 @@ func c03Spaces(c *fw.Ctx) {
 			}
 		})
 
-	toks := []string{"a", "A", "0", ".", `\\`, `\.`, `\046`, `\04`, `\`, "@", `\300`}
+	// the last two are raw octets ≥ 0x80: a two-octet UTF-8 letter (text functions that walk runes see one
+	// rune where the name has two octets) and an octet that is not valid UTF-8
+	toks := []string{"a", "A", "0", ".", `\\`, `\.`, `\046`, `\04`, `\`, "@", `\300`, "\xc3\xa9", "\xff"}
 	maxTok := 6
 	if c.Thorough {
 		maxTok = 7
